@@ -189,13 +189,11 @@ def _keys_by_name(b, text, pairs):
 
 
 def _preimage_documented(b, target, pairs):
-    """The hypotheses of `C13_preimage_any_order`: no two keys with the same value, the target
-    independent of every value (nothing about the order: when the partners are not neighbours
-    `preimage` renames, conjoins and quantifies)."""
-    vals = [v for _, v in pairs]
-    if len(set(vals)) != len(vals):
-        return False
-    return not (set(b.support(target)) & set(vals))
+    """The literal preconditions of `preimage` (`C13_preimage`): no key of the renaming is a value.
+    Nothing about the order, the shape of the renaming or the target: `_preimage_of` runs the
+    fused recursion only when its own test says it is valid, and renames, conjoins, quantifies
+    otherwise."""
+    return not ({k for k, _ in pairs} & {v for _, v in pairs})
 
 
 def _c09_one(ctx, lines, held, names, label, op, args, mid=0, op_mid=None):
@@ -203,11 +201,11 @@ def _c09_one(ctx, lines, held, names, label, op, args, mid=0, op_mid=None):
     `mid` is the manager in which reordering is enabled and the result lives;
     `op_mid` the manager the protocol line addresses (differs for `copy`).
 
-    `image` (any use) and `preimage` in its documented use (`C13_preimage_any_order`: no two keys
-    with the same value, target independent of the values) must return the function they return
-    without reordering, whatever sifting does to the partners of the renaming (F4d repaired:
-    separated partners are renamed, conjoined and quantified); in every case the result must be
-    what the same call computes, without reordering, on the order the manager is left in."""
+    `image` and `preimage` (any renaming, any target, `C13_preimage`) must return the function
+    they return without reordering, whatever sifting does to the partners of the renaming (F4d,
+    F5, F5b repaired: `preimage` renames, conjoins and quantifies unless its fused recursion is
+    valid); and the result must be what the same call computes, without reordering, on the order
+    the manager is left in."""
     if op_mid is None:
         op_mid = mid
     ref_s = replay_lines(ctx, lines)
@@ -250,7 +248,7 @@ def _c09_one(ctx, lines, held, names, label, op, args, mid=0, op_mid=None):
             if op == 'preimage':
                 same_expected = documented0 and _preimage_documented(b, int(args[1]), rel_pairs)
                 adj = all(abs(b.vars[k_] - b.vars[v_]) == 1 for k_, v_ in rel_pairs)
-                ctx.count('preimage:' + ('documented-use' if same_expected else 'undocumented-use')
+                ctx.count('preimage:' + ('literal-preconditions' if same_expected else 'key-is-a-value')
                           + (':partners-neighbours' if adj else ':partners-separated'))
             if abs(r) not in b._succ:
                 bad.append('result is not a node of the manager')
@@ -465,12 +463,9 @@ def check_C13(ctx):
                         want = sp.forall(conj, q) if fa else sp.exists(conj, q)
                         ctx.evaluations += 1
                         if got is None or tt.of(got) != want:
-                            both = sp.depends(st, 'x') and sp.depends(st, 'xp')
                             ctx.violation('preimage differs from quantify(trans & rename(target))', dict(
                                 trans=tr, target=st, qvars=q, forall=fa, order=order, got=ans,
-                                expected_tt=want,
-                                tags=dict(call='preimage',
-                                          target_depends_on_pair_and_partner_quantified=bool(both and 'xp' in q))))
+                                expected_tt=want, tags=dict(call='preimage')))
                         # image: conjoin, quantify, rename xp to x afterwards; precondition
                         # (x quantified or absent from the operands)
                         x_in = sp.depends(tr, 'x') or sp.depends(st, 'x')
@@ -528,11 +523,11 @@ def check_C13(ctx):
             rtr = bld.build(spk, tr)
             tt = TT(b, allnames)
             fa = rng.randint(0, 1)
-            # preimage with a target over the unprimed variables only (documented use), ANY order;
-            # when some partners are not neighbours (rename / conjoin / quantify branch,
-            # `C13_preimage_not_neighbours`) also with an unrestricted target
+            # preimage, ANY order: with a target over the unprimed variables only (the fused
+            # recursion when the partners are neighbours) and with an unrestricted target
+            # (it may depend on the primed variables: rename / conjoin / quantify)
             neighbours = all(abs(b.vars[u] - b.vars[p]) == 1 for u, p in pairs)
-            for free_target in ([False] if neighbours else [False, True]):
+            for free_target in [False, True]:
                 tg = rng.randrange(spk.full + 1)
                 if not free_target:
                     for n in prim:
@@ -552,7 +547,7 @@ def check_C13(ctx):
                     ctx.violation('preimage wrong (several pairs)', dict(
                         order=order, arbitrary_order=arbitrary, free_target=free_target,
                         trans=tr, target=tg, qvars=q, forall=fa, got=ans,
-                        tags=dict(call='preimage', target_depends_on_pair_and_partner_quantified=False)))
+                        tags=dict(call='preimage')))
             # image: source over unprimed, quantify all unprimed, rename primed -> unprimed
             so = rng.randrange(spk.full + 1)
             for n in prim:
